@@ -53,3 +53,296 @@ pub mod host {
         include!("proofs.rs");
     }
 }
+
+/// Second sentence of C17 (in part): whatever statement reaches the query endpoint is prepared on a
+/// connection that SQLite opened READ-ONLY.  Sliced: `sqlite_pool::Config::{new, read_only,
+/// max_size}`, the body of `SplitPool::create`, `SplitPool::{read, read_blocking, dedicated,
+/// client_dedicated, client_dedicated_readonly}` and the statements of `build_query_rows_response`
+/// from the connection acquisition to the `readonly()` gate.  Host: rusqlite's `OpenFlags` with
+/// the C constants of sqlite3.h, a pool that hands out connections opened with its config's flags.
+pub mod ro {
+    use std::path::{Path, PathBuf};
+    use std::sync::Arc;
+    use std::time::Duration;
+    pub use venv::{debug, trace};
+
+    /// rusqlite::OpenFlags (bitflags over sqlite3.h's SQLITE_OPEN_*), `Default` as in rusqlite 0.3x:
+    /// READ_WRITE | CREATE | NO_MUTEX | URI
+    #[derive(Clone, Copy, Debug, PartialEq, Eq)]
+    pub struct OpenFlags(pub u32);
+    #[allow(non_upper_case_globals)]
+    impl OpenFlags {
+        pub const SQLITE_OPEN_READ_ONLY: OpenFlags = OpenFlags(0x0000_0001);
+        pub const SQLITE_OPEN_READ_WRITE: OpenFlags = OpenFlags(0x0000_0002);
+        pub const SQLITE_OPEN_CREATE: OpenFlags = OpenFlags(0x0000_0004);
+        pub const SQLITE_OPEN_URI: OpenFlags = OpenFlags(0x0000_0040);
+        pub const SQLITE_OPEN_MEMORY: OpenFlags = OpenFlags(0x0000_0080);
+        pub const SQLITE_OPEN_NO_MUTEX: OpenFlags = OpenFlags(0x0000_8000);
+        pub const SQLITE_OPEN_FULL_MUTEX: OpenFlags = OpenFlags(0x0001_0000);
+        pub const SQLITE_OPEN_SHARED_CACHE: OpenFlags = OpenFlags(0x0002_0000);
+        pub const SQLITE_OPEN_PRIVATE_CACHE: OpenFlags = OpenFlags(0x0004_0000);
+        pub const SQLITE_OPEN_NOFOLLOW: OpenFlags = OpenFlags(0x0100_0000);
+        pub const SQLITE_OPEN_EXRESCODE: OpenFlags = OpenFlags(0x0200_0000);
+        pub const fn empty() -> Self {
+            OpenFlags(0)
+        }
+        pub const fn contains(&self, o: OpenFlags) -> bool {
+            self.0 & o.0 == o.0
+        }
+        pub const fn intersects(&self, o: OpenFlags) -> bool {
+            self.0 & o.0 != 0
+        }
+        /// what SQLite does with these flags: writable unless opened READONLY without READWRITE
+        pub fn opens_writable(&self) -> bool {
+            self.intersects(OpenFlags::SQLITE_OPEN_READ_WRITE) || self.intersects(OpenFlags::SQLITE_OPEN_CREATE) || !self.contains(OpenFlags::SQLITE_OPEN_READ_ONLY)
+        }
+    }
+    impl Default for OpenFlags {
+        fn default() -> Self {
+            OpenFlags(0x2 | 0x4 | 0x8000 | 0x40)
+        }
+    }
+    impl core::ops::BitOr for OpenFlags {
+        type Output = OpenFlags;
+        fn bitor(self, o: OpenFlags) -> OpenFlags {
+            OpenFlags(self.0 | o.0)
+        }
+    }
+    impl core::ops::BitOrAssign for OpenFlags {
+        fn bitor_assign(&mut self, o: OpenFlags) {
+            self.0 |= o.0
+        }
+    }
+    impl core::ops::BitAnd for OpenFlags {
+        type Output = OpenFlags;
+        fn bitand(self, o: OpenFlags) -> OpenFlags {
+            OpenFlags(self.0 & o.0)
+        }
+    }
+    impl core::ops::Sub for OpenFlags {
+        type Output = OpenFlags;
+        fn sub(self, o: OpenFlags) -> OpenFlags {
+            OpenFlags(self.0 & !o.0)
+        }
+    }
+    impl core::ops::Not for OpenFlags {
+        type Output = OpenFlags;
+        fn not(self) -> OpenFlags {
+            OpenFlags(!self.0 & 0x03ff_ffff)
+        }
+    }
+
+    // deadpool's configuration records (only carried around)
+    #[derive(Clone, Copy, Debug, Default)]
+    pub struct Timeouts {
+        pub wait: Option<Duration>,
+        pub create: Option<Duration>,
+        pub recycle: Option<Duration>,
+    }
+    #[derive(Clone, Copy, Debug, Default)]
+    pub enum QueueMode {
+        #[default]
+        Fifo,
+        Lifo,
+    }
+    #[derive(Clone, Copy, Debug, Default)]
+    pub struct PoolConfig {
+        pub max_size: usize,
+        pub timeouts: Timeouts,
+        pub queue_mode: QueueMode,
+    }
+
+    /// which connection a user statement was prepared on (the observation point of the harness)
+    pub static mut PREPARED: u32 = 0;
+    pub static mut PREPARED_ON_WRITABLE: u32 = 0;
+
+    pub mod rusqlite {
+        use super::*;
+        #[derive(Debug)]
+        pub struct Error;
+        impl Error {
+            pub fn to_string(&self) -> String {
+                String::new()
+            }
+        }
+        pub type Result<T> = core::result::Result<T, Error>;
+        /// a database handle: all the harness needs to know is the flags it was opened with
+        #[derive(Debug)]
+        pub struct Connection {
+            pub flags: OpenFlags,
+        }
+        pub struct Statement<'a> {
+            pub conn: &'a Connection,
+            pub readonly: bool,
+        }
+        impl Statement<'_> {
+            /// sqlite3_stmt_readonly: arbitrary (a SELECT calling a writing function reports true)
+            pub fn readonly(&self) -> bool {
+                self.readonly
+            }
+        }
+        impl Connection {
+            pub fn open<P: AsRef<Path>>(_p: P) -> Result<Connection> {
+                Ok(Connection { flags: OpenFlags::default() })
+            }
+            pub fn open_with_flags<P: AsRef<Path>>(_p: P, flags: OpenFlags) -> Result<Connection> {
+                Ok(Connection { flags })
+            }
+            pub fn prepare(&self, _sql: &str) -> Result<Statement<'_>> {
+                unsafe {
+                    PREPARED += 1;
+                    if self.flags.opens_writable() {
+                        PREPARED_ON_WRITABLE += 1;
+                    }
+                }
+                if kani_any_bool() { Ok(Statement { conn: self, readonly: kani_any_bool() }) } else { Err(Error) }
+            }
+        }
+    }
+    pub use rusqlite::Connection;
+
+    #[cfg(kani)]
+    pub fn kani_any_bool() -> bool {
+        kani::any()
+    }
+    #[cfg(not(kani))]
+    pub fn kani_any_bool() -> bool {
+        true
+    }
+
+    /// klukai's cr-sqlite connection wrapper
+    #[derive(Debug)]
+    pub struct CrConn(pub Connection);
+    impl core::ops::Deref for CrConn {
+        type Target = Connection;
+        fn deref(&self) -> &Connection {
+            &self.0
+        }
+    }
+    pub fn rusqlite_to_crsqlite(conn: Connection) -> rusqlite::Result<CrConn> {
+        Ok(CrConn(conn))
+    }
+    pub fn rusqlite_to_crsqlite_write(conn: Connection) -> rusqlite::Result<CrConn> {
+        Ok(CrConn(conn))
+    }
+    pub fn setup_conn(_c: &Connection) -> rusqlite::Result<()> {
+        Ok(())
+    }
+
+    #[derive(Debug)]
+    pub struct SqlitePoolError;
+    impl SqlitePoolError {
+        pub fn to_string(&self) -> String {
+            String::new()
+        }
+    }
+    #[derive(Debug)]
+    pub struct SplitPoolCreateError;
+    impl From<sqlite_pool::CreatePoolError> for SplitPoolCreateError {
+        fn from(_: sqlite_pool::CreatePoolError) -> Self {
+            SplitPoolCreateError
+        }
+    }
+
+    pub mod sqlite_pool {
+        use super::*;
+        #[derive(Debug)]
+        pub struct CreatePoolError;
+        /// a pool opens every connection with its configuration's flags (Manager::create:
+        /// `rusqlite::Connection::open_with_flags(&config.path, config.open_flags)` + transform)
+        pub struct Pool<T> {
+            pub open_flags: OpenFlags,
+            pub max_size: usize,
+            pub transform: fn(super::Connection) -> rusqlite::Result<T>,
+        }
+        pub struct Connection2<T>(pub T);
+        pub type Connection<T> = Connection2<T>;
+        impl<T> core::ops::Deref for Connection2<T> {
+            type Target = T;
+            fn deref(&self) -> &T {
+                &self.0
+            }
+        }
+        impl<T> Pool<T> {
+            pub async fn get(&self) -> Result<Connection2<T>, SqlitePoolError> {
+                if kani_any_bool() {
+                    match (self.transform)(super::Connection { flags: self.open_flags }) {
+                        Ok(c) => Ok(Connection2(c)),
+                        Err(_) => Err(SqlitePoolError),
+                    }
+                } else {
+                    Err(SqlitePoolError)
+                }
+            }
+        }
+        include!("sliced/poolcfg.rs");
+        impl Config {
+            pub fn create_pool_transform<T>(&self, f: fn(super::Connection) -> rusqlite::Result<T>) -> Result<Pool<T>, CreatePoolError> {
+                Ok(Pool { open_flags: self.open_flags, max_size: self.pool.max_size, transform: f })
+            }
+        }
+    }
+    pub type SqlitePool = sqlite_pool::Pool<CrConn>;
+
+    pub struct Semaphore;
+    pub struct Handle;
+    impl Handle {
+        pub fn current() -> Handle {
+            Handle
+        }
+        pub fn block_on<F: core::future::Future>(&self, f: F) -> F::Output {
+            venv::task::block_on(f)
+        }
+    }
+    pub struct SplitPoolInner {
+        pub path: PathBuf,
+        pub write_sema: Arc<Semaphore>,
+        pub read: SqlitePool,
+        pub write: SqlitePool,
+    }
+    pub struct SplitPool(pub Arc<SplitPoolInner>);
+    impl SplitPool {
+        fn new(path: PathBuf, write_sema: Arc<Semaphore>, read: SqlitePool, write: SqlitePool) -> Self {
+            SplitPool(Arc::new(SplitPoolInner { path, write_sema, read, write }))
+        }
+    }
+    include!("sliced/splitpool.rs");
+    include!("sliced/splitpool_methods.rs");
+
+    // --- the query endpoint ------------------------------------------------------------------
+    #[derive(Debug, Clone, Copy, PartialEq, Eq)]
+    #[allow(non_camel_case_types)]
+    pub enum StatusCode {
+        INTERNAL_SERVER_ERROR,
+        BAD_REQUEST,
+    }
+    pub enum ExecResult {
+        Error { error: String },
+    }
+    pub struct Statement(pub String);
+    impl Statement {
+        pub fn query(&self) -> &str {
+            &self.0
+        }
+    }
+    pub struct SocketAddr;
+    pub mod oneshot {
+        pub struct Sender<T>(pub core::marker::PhantomData<T>);
+        impl<T> Sender<T> {
+            pub fn send(self, v: T) -> Result<(), T> {
+                core::mem::forget(v);
+                Ok(())
+            }
+        }
+    }
+    pub fn block_in_place<R>(f: impl FnOnce() -> R) -> R {
+        f()
+    }
+    include!("sliced/queries.rs");
+
+    #[cfg(kani)]
+    mod proofs {
+        use super::*;
+        include!("proofs_ro.rs");
+    }
+}
